@@ -229,9 +229,23 @@ func (c *Ctx) bocDedup() {
 		}
 	}
 	adds := callsTo(f, bocPath+".orderState.add")
-	okv := hit != nil && len(adds) == 1
+	var addBlocks []*ssa.BasicBlock
+	for _, a := range adds {
+		addBlocks = append(addBlocks, a.Block())
+	}
+	if len(adds) == 0 {
+		// orderState.add inlined: the append to the cell list itself (a store to the list field of the order state)
+		allInstrs(f, func(b *ssa.BasicBlock, in ssa.Instruction) {
+			if st, ok := in.(*ssa.Store); ok {
+				if tn, fn, ok := fieldOf(st.Addr); ok && strings.HasSuffix(tn, "orderState") && fn == "cellList" {
+					addBlocks = append(addBlocks, b)
+				}
+			}
+		})
+	}
+	okv := hit != nil && len(addBlocks) == 1
 	if okv {
-		okv = edgeDominates(f, edge{hit.Block(), 1}, adds[0].Block()) && edgeDominates(f, edge{hit.Block(), 1}, update.Block())
+		okv = edgeDominates(f, edge{hit.Block(), 1}, addBlocks[0]) && edgeDominates(f, edge{hit.Block(), 1}, update.Block())
 	}
 	c.check(okv, R, "a cell is added only after a miss", f.Pos(), "state.add and the map insertion are dominated by the miss edge of the lookup", "importCell can append a cell that is already in the map (shared subtrees would be stored more than once)")
 	// on a hit the recorded position is returned
@@ -581,28 +595,68 @@ func inLoop(b *ssa.BasicBlock) bool {
 // bocDescriptors: d1/d2 bit-field placement vs the reader's extraction.
 func (c *Ctx) bocDescriptors() {
 	const R = "E7.descriptors"
-	d1 := c.mustFn(R, "boc", "d1")
 	rd := c.mustFn(R, "boc", "deserializeCellData")
+	// the descriptor writer: d1 / d2, a function merging both, or the representation builder they were inlined
+	// into - whatever bocReprWithoutRefs computes the two bytes with
+	d1 := c.fn("boc", "d1")
+	if d1 == nil {
+		d1 = c.mustFn(R, "boc", "Cell.bocReprWithoutRefs")
+	}
 	if d1 == nil || rd == nil {
 		return
 	}
-	// writer: refs + 8*exotic + 32*mask
+	// an operation with a constant, in any of its equivalent spellings for the unsigned quantities involved:
+	// x%2^j = x&(2^j-1), x*2^j = x<<j, x/2^j = x>>j
+	pow2 := func(k int64) (int64, bool) {
+		j := int64(0)
+		for v := k; v > 1 && v%2 == 0; v /= 2 {
+			j++
+		}
+		return j, k > 0 && int64(1)<<uint(j) == k
+	}
 	has := func(f *ssa.Function, op token.Token, k int64) bool {
+		type ok struct {
+			op token.Token
+			k  int64
+		}
+		forms := []ok{{op, k}}
+		switch op {
+		case token.REM:
+			if _, p := pow2(k); p {
+				forms = append(forms, ok{token.AND, k - 1})
+			}
+		case token.MUL:
+			if j, p := pow2(k); p {
+				forms = append(forms, ok{token.SHL, j})
+			}
+		case token.QUO:
+			if j, p := pow2(k); p {
+				forms = append(forms, ok{token.SHR, j})
+			}
+		}
 		found := false
-		allInstrs(f, func(_ *ssa.BasicBlock, in ssa.Instruction) {
-			if bo, ok := in.(*ssa.BinOp); ok && bo.Op == op {
-				if v, ok := constInt(bo.Y); ok && v == k {
+		c.allInstrsDeep(f, func(_ *ssa.BasicBlock, in ssa.Instruction) {
+			bo, isB := in.(*ssa.BinOp)
+			if !isB {
+				return
+			}
+			for _, fm := range forms {
+				if bo.Op != fm.op {
+					continue
+				}
+				if v, ok := constInt(bo.Y); ok && v == fm.k {
 					found = true
 				}
-				if v, ok := constInt(bo.X); ok && v == k {
+				if v, ok := constInt(bo.X); ok && v == fm.k {
 					found = true
 				}
 			}
 		})
 		return found
 	}
-	spec8 := false
-	allInstrs(d1, func(_ *ssa.BasicBlock, in ssa.Instruction) {
+	// the exotic flag is worth 8: a variable that is 0 or 8, or a conditional += 8
+	spec8 := has(d1, token.ADD, 8)
+	c.allInstrsDeep(d1, func(_ *ssa.BasicBlock, in ssa.Instruction) {
 		if ph, ok := in.(*ssa.Phi); ok {
 			for _, e := range ph.Edges {
 				if k, ok := constInt(e); ok && k == 8 {
@@ -615,8 +669,56 @@ func (c *Ctx) bocDescriptors() {
 	c.check(has(rd, token.REM, 8) && has(rd, token.AND, 8) && has(rd, token.AND, 16) && has(rd, token.SHR, 5), R, "reader extracts refs=d1%8, exotic=d1&8, hashes=d1&16, mask=d1>>5", rd.Pos(), "same bit fields as the writer", "the reader no longer extracts refs / exotic / with-hashes / level mask from d1 with %8, &8, &16, >>5")
 	// d2: ceil(bits/8) + floor(bits/8) on the writer; (d2>>1)+(d2%2) bytes and d2%2 == 0 <=> full bytes on the reader
 	d2 := c.fn("boc", "d2")
+	if d2 == nil {
+		d2 = d1
+	}
 	okd2 := d2 != nil && has(d2, token.QUO, 8) && has(d2, token.ADD, 7)
-	c.check(okd2 && has(rd, token.SHR, 1) && has(rd, token.REM, 2), R, "d2 = ceil(bits/8)+floor(bits/8) vs (d2>>1)+(d2%2)", rd.Pos(), "length descriptor agrees between writer and reader", "the data-length descriptor d2 is no longer computed / decoded as ceil(bits/8)+floor(bits/8)")
+	// the reader's byte count ceil(d2/2): (d2>>1)+(d2%2), or (d2+1)>>1
+	// the reader's byte count is the upper bound of the first data slice cellData[0:n]; n must be ceil(d2/2):
+	// (d2>>1)+(d2%2) (or &1), or (d2+1)>>1 with the addition done in a type wider than the byte (in uint8 it
+	// wraps at d2 = 255)
+	wideInc := false
+	c.allInstrsDeep(rd, func(_ *ssa.BasicBlock, in ssa.Instruction) {
+		sl, ok := in.(*ssa.Slice)
+		if !ok || sl.High == nil || wideInc {
+			return
+		}
+		if sl.Low != nil {
+			if z, ok := constInt(sl.Low); !ok || z != 0 {
+				return
+			}
+		}
+		n := stripConv(sl.High)
+		isHalf := func(v ssa.Value) bool {
+			bo, ok := stripConv(v).(*ssa.BinOp)
+			if !ok {
+				return false
+			}
+			k, isK := constInt(bo.Y)
+			return isK && ((bo.Op == token.SHR && k == 1) || (bo.Op == token.QUO && k == 2))
+		}
+		isOdd := func(v ssa.Value) bool {
+			bo, ok := stripConv(v).(*ssa.BinOp)
+			if !ok {
+				return false
+			}
+			k, isK := constInt(bo.Y)
+			return isK && ((bo.Op == token.REM && k == 2) || (bo.Op == token.AND && k == 1))
+		}
+		if bo, ok := n.(*ssa.BinOp); ok {
+			switch {
+			case bo.Op == token.ADD && ((isHalf(bo.X) && isOdd(bo.Y)) || (isHalf(bo.Y) && isOdd(bo.X))):
+				wideInc = true
+			case isHalf(bo):
+				if inc, ok := stripConv(bo.X).(*ssa.BinOp); ok && inc.Op == token.ADD && intBits(inc.Type()) > 8 {
+					if k, ok := constInt(inc.Y); ok && k == 1 {
+						wideInc = true
+					}
+				}
+			}
+		}
+	})
+	c.check(okd2 && wideInc, R, "d2 = ceil(bits/8)+floor(bits/8) vs (d2>>1)+(d2%2)", rd.Pos(), "length descriptor agrees between writer and reader", "the data-length descriptor d2 is no longer computed / decoded as ceil(bits/8)+floor(bits/8)")
 	// the serialiser passes the cell's level MASK (field) to the representation, not its level
 	w := c.fn("boc", "bagOfCells.serializeBoc")
 	if w != nil {
@@ -669,9 +771,11 @@ func (c *Ctx) storedHashCount() {
 		okv := false
 		allInstrs(g, func(_ *ssa.BasicBlock, in ssa.Instruction) {
 			if bo, ok := in.(*ssa.BinOp); ok && bo.Op == token.MUL {
-				if cl := callOf(bo.X); cl != nil && callQName(&cl.Call) == bocPath+".levelMask.HashesCount" {
-					if k, ok := constInt(bo.Y); ok && k == 34 {
-						okv = true
+				for _, pr := range [][2]ssa.Value{{bo.X, bo.Y}, {bo.Y, bo.X}} {
+					if cl := callOf(pr[0]); cl != nil && callQName(&cl.Call) == bocPath+".levelMask.HashesCount" {
+						if k, ok := constInt(pr[1]); ok && k == 34 {
+							okv = true
+						}
 					}
 				}
 			}
@@ -893,4 +997,16 @@ func isErrorPathZero(v ssa.Value) bool {
 		return k == 0
 	}
 	return false
+}
+
+// firstUser: the first instruction that uses v (nil when none).
+func firstUser(v ssa.Value) ssa.Instruction {
+	if refs := v.Referrers(); refs != nil {
+		for _, r := range *refs {
+			if _, dbg := r.(*ssa.DebugRef); !dbg {
+				return r
+			}
+		}
+	}
+	return nil
 }
